@@ -24,6 +24,12 @@ case kinds
       "visible": every object reachable through contents from system.rootobjects whose isVisible is true;
       "registry_agrees": the same set is what system.allobjects holds (visible, attached) -- it is not when two root
       modules share a name (System._handleDuplicateModule leaves the superseded module in rootobjects)
+  {"k":"linker","mods":[...as in project...],"fetches":[[url, hex|null|{"mods":[...]} (= the objects.inv pydoctor writes
+   for that other project)], ...],"queries":[name, ...],"from":[qualified names of objects whose linker is used]}
+      System(options.intersphinx=urls).fetchIntersphinxInventories(cache), modules built, then for each `from` object and
+      each name of the loaded map + queries: docstring_linker.look_for_intersphinx(name), _resolve_identifier_xref(name)
+      -> {"exc","links","reports","answers" (as fetch), "data": [hex|null per fetch], "root_names", "local": names of the
+          project's own objects, "lookups": [[from, name, look_for_intersphinx, kind, value, expandName(name)], ...]}
   {"k":"sweep3","head": hex, "first": int}
       all 65536 byte strings head + bytes([first, b2, b3]) -> summary {"n":..., "anomalies":[hex, ...]}
       anomaly = anything but (no exception, no links, exactly one 'Failed to uncompress' report)
@@ -280,6 +286,101 @@ def run_project(case):
         shutil.rmtree(tmp, ignore_errors=True)
 
 
+def written_inventory(spec):
+    """objects.inv as pydoctor writes it (driver.make, --make-intersphinx) for the project `spec`"""
+    from pydoctor import driver
+    from pydoctor.options import Options
+    tmp = Path(tempfile.mkdtemp(prefix='c17_'))
+    try:
+        opts = Options.defaults()
+        opts.makeintersphinx = True
+        opts.makehtml = False
+        opts.htmloutput = str(tmp / 'out')
+        opts.projectname = spec.get('project', 'other')
+        system = model.System(opts)
+        system.msg = lambda *a, **k: None
+        b = system.systemBuilder(system)
+        for name, text, parent, ispkg in spec.get('mods', []):
+            b.addModuleString(text, name, parent, ispkg)
+        b.buildModules()
+        driver.make(system)
+        return (tmp / 'out' / 'objects.inv').read_bytes()
+    finally:
+        shutil.rmtree(tmp, ignore_errors=True)
+
+
+def run_linker(case):
+    """A project documented with remote inventories loaded: System.fetchIntersphinxInventories, then every name of the
+    loaded map (and the queries) looked up through the REAL docstring linker of objects of the project."""
+    from pydoctor.options import Options
+    fetches = []
+    for u, d in case['fetches']:
+        if isinstance(d, dict):
+            d = written_inventory(d)
+        elif d is not None:
+            d = bytes.fromhex(d)
+        fetches.append([u, d])
+    logs = []
+    orig_msg = model.System.msg
+
+    def msg(self, section, m, thresh=0, **kw):
+        logs.append([section, m, thresh])
+    model.System.msg = msg
+    try:
+        opts = Options.defaults()
+        opts.intersphinx = [u for u, _ in fetches]
+        system = model.System(opts)
+        exc = None
+        try:
+            system.fetchIntersphinxInventories(FakeCache(dict((u, d) for u, d in fetches)))
+        except BaseException as e:  # noqa
+            exc = type(e).__name__
+        reports = [l for l in logs if l[0] == 'sphinx']
+        b = system.systemBuilder(system)
+        for name, text, parent, ispkg in case.get('mods', []):
+            b.addModuleString(text, name, parent, ispkg)
+        try:
+            b.buildModules()
+        except BaseException as e:  # noqa
+            return {'build_exc': type(e).__name__ + ': ' + str(e)[:300]}
+        inv = system.intersphinx
+        links = [[k, v[0], v[1]] for k, v in inv._links.items()]
+        names = [k for k in inv._links] + list(case.get('queries', []))
+        answers = []
+        for n in names:
+            try:
+                answers.append([n, inv.getLink(n)])
+            except BaseException as e:  # noqa
+                answers.append([n, '!' + type(e).__name__])
+        froms = [f for f in case.get('from', []) if f in system.allobjects] or list(system.allobjects)[:3]
+        lookups = []
+        for f in froms:
+            ob = system.allobjects[f]
+            lnk = ob.docstring_linker
+            for n in names:
+                try:
+                    look = lnk.look_for_intersphinx(n)
+                except BaseException as e:  # noqa
+                    look = '!' + type(e).__name__
+                try:
+                    r = lnk._resolve_identifier_xref(n, 0)
+                    res = ['url', r] if isinstance(r, str) else ['object', r.fullName()]
+                except LookupError:
+                    res = ['none', None]
+                except BaseException as e:  # noqa
+                    res = ['exc', type(e).__name__]
+                try:
+                    expanded = ob.expandName(n)
+                except BaseException as e:  # noqa
+                    expanded = None
+                lookups.append([f, n, look, res[0], res[1], expanded])
+        return {'build_exc': None, 'exc': exc, 'links': links, 'reports': reports, 'answers': answers,
+                'data': [None if d is None else d.hex() for _, d in fetches],
+                'root_names': list(system.root_names), 'local': sorted(system.allobjects), 'lookups': lookups}
+    finally:
+        model.System.msg = orig_msg
+
+
 def run_sweep3(case):
     head = bytes.fromhex(case['head'])
     first = case['first']
@@ -311,6 +412,8 @@ def run_case(case):
         return run_fetch(case)
     if k == 'project':
         return run_project(case)
+    if k == 'linker':
+        return run_linker(case)
     if k == 'sweep3':
         return run_sweep3(case)
     raise ValueError(k)
